@@ -22,7 +22,8 @@ CLAIMED = {
              'exactly one atomic +1 step on the shared counter and return the value tied to the ghost index of their own step, under a '
              'rely that lets any number of other threads take such steps at every atomic operation; distinct indices give distinct values (lemma). '
              'Unbounded in threads and schedule.',
-        note='sequential consistency; fewer than 2^32 uses per run; single use site per engine (static facts re-checked each run); stub std::atomic trusted',
+        note='sequential consistency; fewer than 2^32 uses per run; single use site per engine (static facts re-checked each run); stub std::atomic trusted; '
+             'conditional compilation resolved as in the shipped build (_OPENMP defined); a body that keeps per-thread state besides the counter is outside the contract (undecided, exit 2)',
         technique='CBMC function contracts (DFCC) on extracted C++ + rely/guarantee ghost monitor',
         design='DESIGN.md §3 C22'),
     'C18': dict(
@@ -41,10 +42,11 @@ CLAIMED = {
     'C08': dict(
         text='Partial. Proof, for every bound mask and every pair of 32-bit values, that the real EquivalenceRelation::lower_bound (interpreter '
              'path, under the caller\'s MIN_RAM_SIGNED encoding of unbound columns) and getBoundaries<0|1|2> (compiled path) return the range '
-             'the property demands (all pairs / pairs with that first element / that pair / empty). One genuine defect is recorded as a known '
+             'the property demands (all pairs / pairs with that first element / that pair / empty), through the real iterator factories begin/anteriorIt/antpostit, '
+             'and that the per-class list cache is regenerated before it is read (ghost freshness flag; the cache may be stale at entry). One genuine defect is recorded as a known '
              'finding (bound value == MIN_RAM_SIGNED); inputs outside that class are proved. NOT covered: btree/brie/default transparency and '
              'closure maintenance (see C28/C29).',
-        note='iterators abstracted to a ghost range descriptor; sds.nodeExists/contains uninterpreted; caller encoding taken from static facts on '
+        note='iteration abstracted to a ghost range descriptor, cache rebuilding to a ghost flag; sds.nodeExists/contains/findNode uninterpreted; caller encoding taken from static facts on '
              'Generator.cpp/Index.h re-checked each run',
         technique='CBMC function contracts (DFCC) on extracted C++ member functions, full-domain symbolic inputs, native replay on the real header',
         design='DESIGN.md §3 C08'),
@@ -53,17 +55,24 @@ CLAIMED = {
              'BTreeUtil.h search strategies — linear_search and binary_search, each operator()/lower_bound/upper_bound — return the least position '
              'whose element is >= key (resp. > key; resp. a position holding the key or else the lower bound), stay within [a,b], write nothing '
              'and terminate (loop invariants + variants, unbounded iterations), and that comparator<int> is a correct three-way comparison. '
-             'NOT covered: everything the property quantifies over in BTree.h — concurrent insertion, optimistic locking, splits, hints, '
-             'iteration order, size, chunk partitioning.',
+             '(2) Node level of BTree.h (IS_PARALLEL variant, instantiation maxKeys = 4, labelled bounded): node::split and node::grow_parent (quick tier), '
+             'node::rebalance_or_split and node::insert_inner on a node with room (thorough tier) each under its own contract with the callees replaced by '
+             'theirs: the token sequences (keys and child pointers) of the nodes touched are rewritten without changing their in-order concatenation, '
+             'every moved child is linked back to its new parent at the right position, a new sibling is write-locked and recorded, a modified left '
+             'sibling is released by end_write, a split root gets a fresh root and the root pointer is switched, nothing outside the stated frame changes. '
+             'NOT covered: btree::insert itself (descent, in-leaf insertion, locking of the sphere of influence, the end_write/abort_write decisions on '
+             'the leaf and root locks), insert_inner on a full node, hints, concurrent schedules, iteration order, size, chunk partitioning.',
         note='instantiations Key=int and a two-column key; member templates hoisted to free functions and textually instantiated (R7); sortedness used by instantiation '
-             'at the ghost index; BTree.h itself is outside CBMC\'s C++ front end',
+             'at the ghost index; node level: finite universe of node objects, lock replaced by its specification, sphere of influence assumed through a ghost flag, '
+             'composition over the height of the tree argued on paper (DESIGN 8.9); the body of btree::insert is outside CBMC\'s C++ front end',
         technique='CBMC function contracts (DFCC) on extracted C++ templates + loop-invariant/variant hooks with ghost index',
         design='DESIGN.md §3 C25'),
     'C28': dict(
         text='Partial. (1) Closure: everything proved for the union-find under C29 (insert is unionNodes; the classes are the forest partition). (2) Storage layer: proof of PiggyList<T>::get/createNode/append and RandomInsertPiggyList<T>::get/insertAt (T = unsigned long) — '
              'addressing is the bijection index+2^16 = (2^16<<bn)+bi, the addressed block is allocated, growth keeps the representation invariant, '
              'returns the old size, leaves existing blocks untouched, append stores the element (loop invariants, all sizes below 2^31-2^16). '
-             'NOT covered: EquivalenceRelation iterators, size(), partition cache, extendAndInsert, SparseDisjointSet sparse<->dense maps (LambdaBTreeSet, std::function, lambdas: outside the front end).',
+             '(3) Ordering of the sparse->dense map: EqrelMapComparator::operator()/less/equal is a correct three-way comparison of the keys for every pair of 32- and 64-bit domain values. '
+             'NOT covered: EquivalenceRelation iterators, size(), partition cache, extendAndInsert, SparseDisjointSet sparse<->dense maps themselves (LambdaBTreeSet, std::function, lambdas: outside the front end).',
         note='sequential contracts (no interference) for the growth functions; SpinLock as ghost mutex; operator new[] modelled as fresh allocation; '
              'index + 2^16 < 2^31 (int shift in get())',
         technique='CBMC function contracts (DFCC) on extracted C++ class templates + loop-invariant hooks + ghost indices',
